@@ -5021,7 +5021,10 @@ class FixedSized(Subconstruct):
         return buildret
 
     def _sizeof(self, context, path):
-        length = evaluate(self.length, context)
+        try:
+            length = evaluate(self.length, context)
+        except (KeyError, AttributeError):
+            raise SizeofError("cannot calculate size, key not found in context", path=path)
         if length < 0:
             raise PaddingError("length cannot be negative", path=path)
         return length
